@@ -1,3 +1,4 @@
+import FractopoModel.Lemmas.SnapDriver
 import FractopoModel.Generated.Windows
 import FractopoModel.Generated.SnapConstants
 import FractopoModel.Props.C05
@@ -59,5 +60,14 @@ theorem C03_degree_classes :
 
 example : accepted (1 / 200) (1 / 100) (11 / 10) = true ∧ accepted (21 / 2000) (1 / 100) (11 / 10) = false ∧ accepted (3 / 100) (1 / 100) (11 / 10) = true := by
   decide +kernel
+
+/-- **Extraction gives up only by raising, never by looping on**: whenever the regenerated snapping driver of
+`branches_and_nodes` returns (for any pass function that does not raise by itself), at most `allowed_loops` repeat passes were
+made -- the `report_snapping_loop` bound, for the regenerated `while` loop. -/
+theorem C03_generated_loop_bound (ord : SnapL.Ord) (t margin : Rat) (areas : List Polygon) (allowed : Nat)
+    (pass_ : List Polyline → List Polyline × Bool) (hpass : ∀ tr, SnapL.snapPass ord t margin areas tr = .ok (pass_ tr))
+    (traces out : List Polyline) (n : Nat) (h : Gen.snap_driver pass_ traces allowed (allowed + 2) = .ok (out, n)) : n ≤ allowed := by
+  rw [SnapDriver.generated_driver ord t margin areas allowed pass_ hpass] at h
+  exact SnapL.snapLoop_bound ord t margin areas allowed traces out n h
 
 end C03
